@@ -47,6 +47,23 @@ fn main() {
     // hand-made: no constraints at all (very fast solve), circle + arc together
     texts.push(("# constraints\npoint p\n\n# guesses\np roughly (1, 2)\n".into(), "no-constraints"));
     texts.push(("# constraints\npoint p\ncircle c\narc a\np.x = 1\nradius(c, 2)\nis_arc(a)\n\n# guesses\np roughly (0, 0)\nc.center roughly (1, 1)\nc.radius roughly 1.5\na.center roughly (0, 0)\na.a roughly (1, 0)\na.b roughly (0, 1.5)\n".into(), "circle-and-arc"));
+    // LARGE texts (about 150 KB and 600 KB): every point pinned, so the solve is one cheap round;
+    // what is exercised is the reading of the text - a bounded read, a fixed buffer, a truncated
+    // standard input shows up only beyond some size, and only on one of the two input routes
+    for npts in [2500usize, 10000] {
+        let mut t = String::from("# constraints\n");
+        for i in 0..npts {
+            t += &format!("point q{i}\n");
+        }
+        for i in 0..npts {
+            t += &format!("q{i}.x = {i}\nq{i}.y = {}\n", i % 7);
+        }
+        t += "\n# guesses\n";
+        for i in 0..npts {
+            t += &format!("q{i} roughly ({i}.5, 1)\n");
+        }
+        texts.push((t, "large-text"));
+    }
     for i in 0..n {
         let gp = gen_valid(&mut rng);
         if i % 3 == 2 {
